@@ -34,7 +34,54 @@ def main() -> int:
         return 0
     if a.selftest:
         return mod.selftest(ctx)
-    return mod.run(ctx)
+    try:
+        return mod.run(ctx)
+    except MachineryError:
+        raise
+    except Exception as e:  # noqa
+        where = _library_frame(e)
+        if where is None:
+            raise
+        # The drivers feed the library inputs inside the property's quantifier and were validated against the pinned
+        # tree, where none of these calls raises.  An exception that comes out of library code at a call the driver does
+        # not expect to fail is therefore the library failing on such an input: reported as a violation (with the
+        # traceback as the failing case), not as a failure of the machinery.  Exceptions raised by harness code
+        # (innermost frame in /verif) stay machinery failures.
+        import traceback
+
+        tb = "".join(traceback.format_exception(e))[-6000:]
+        ctx.violation(f"escaped:{type(e).__name__}:{where}", "library_raises_on_input_within_the_property_quantifier",
+                      {"exception": f"{type(e).__name__}: {e}"[:500], "raised_in": where, "traceback": tb},
+                      f"{type(e).__name__}: {str(e)[:300]} raised in {where}; the check stopped at this point (remaining cases not explored)")
+        ctx.note_drift("run_aborted_by_unexpected_library_exception")
+        return ctx.finish(rule="ABORTED by an exception out of library code on a harness input; coverage figures are partial", exhaustive=False)
+
+
+def _library_frame(e: BaseException) -> "str | None":
+    """'<file>:<function>' of the innermost frame if the exception was raised by (or below) library code reached from the
+    harness and not by harness code itself; None otherwise.  Works through process pools (remote traceback text)."""
+    import re
+    import traceback
+
+    src = os.path.realpath(os.path.join(os.environ.get("VERIF_REPO", "/repo"), "src")) + os.sep
+    verif = os.path.realpath(os.path.join(os.path.dirname(__file__), "..")) + os.sep
+    frames: list[tuple[str, str]] = []
+    cause = e.__cause__
+    if cause is not None and "RemoteTraceback" in type(cause).__name__:
+        frames = [(m.group(1), m.group(2)) for m in re.finditer(r'File "([^"]+)", line \d+, in (\S+)', str(cause))]
+    else:
+        frames = [(os.path.realpath(f.filename), f.name) for f in traceback.extract_tb(e.__traceback__)]
+    if not frames:
+        return None
+    frames = [(os.path.realpath(f), n) for f, n in frames]
+    if frames[-1][0].startswith(verif):
+        return None                       # raised by harness code (possibly a callback the library invoked)
+    last_harness = max((i for i, (f, _) in enumerate(frames) if f.startswith(verif)), default=-1)
+    lib = [(f, n) for f, n in frames[last_harness + 1:] if f.startswith(src)]
+    if not lib:
+        return None
+    f, n = lib[-1]
+    return f"{f[len(src):]}:{n}"
 
 
 if __name__ == "__main__":
